@@ -79,6 +79,7 @@ Stmt(s) ==
       [] s.k = "text"   -> Tup(<<S("text"), S(TextOf(s.s))>>)
       [] s.k = "table"  -> Tup(<<S("table"), S("tbl" \o ToString(s.t) \o ".tbl")>>)
       [] s.k = "incbin" -> Tup(<<S("incbin"), S(s.file)>>)
+      [] s.k = "ips"    -> Tup(<<S("include_ips"), S(s.file), E(s.delta)>>)
       [] s.k = "stareq" -> Tup(<<S("star_eq"), E(s.e)>>)
       [] s.k = "ateq"   -> Tup(<<S("at_eq"), E(s.e)>>)
       [] s.k = "map"    -> Tup(<<S("map"), MapRep(s.decl)>>)
